@@ -22,7 +22,7 @@ CHECKS = {
                 "endpoint release and reusability assume the orderly discipline (no API call started while a serving call's start-up or "
                 "drain is in flight, except binds refused because running = true) — the general model documents what overlap does "
                 "(a decide'd example: Bind concurrent with DoListen's start is not refused and Shutdown then does not end serving; "
-                "reproducible on the real code with `vh lifeprobe`). Trusted: Lean kernel, harness (controlled listener, quiescence test), "
+                "reproducible on the real code with `vh lifeprobe`, part of the thorough tier, recorded as a known finding). Trusted: Lean kernel, harness (controlled listener, quiescence test), "
                 "driver replay of harness events, skeleton extractor.",
         "technique": "Lean 4 LTS + invariants by induction over reachability + bounded-progress measure + regenerated skeleton (decide) + exhaustive bounded-history correspondence on the real code",
     },
@@ -38,8 +38,11 @@ CHECKS = {
                 "address is free at once (the guard of the listen step), the listener stays closed and every later client is refused "
                 "(timeout_releases_endpoint, with the old teardown's failing trace as a decide'd regression example). Tied by the same "
                 "regenerated skeleton, by all bounded histories with expiries (and Shutdown placed before / after them) injected through "
-                "the controlled listener, and by real-clock histories on unix-path / abstract / tcp sockets incl. immediate re-listen.",
+                "the controlled listener (DoListen), by all bounded histories with Listen on real unix-path / abstract / tcp sockets where the "
+                "expiry is injected on the real listener (SetDeadline in the past), and by real-clock histories incl. immediate re-listen.",
         "note": "Partial: net deadline behaviour is an assumption validated only by the real-clock runs (timeout 400 ms, one-sided margins); "
+                "Listen cannot take an injected listener (it binds itself), so Shutdown placed inside a listener call is exercised on DoListen "
+                "only; Listen's loop is the same code by skeleton (listen_and_dolisten_share_the_loop) and runs on real sockets with injected expiries; "
                 "endpoint release and never-stops are proved under the orderly discipline (see C14). Trusted: as C14.",
         "technique": "Lean 4 LTS + invariants by induction + exhaustive bounded-history correspondence with injected expiries + real-clock socket runs",
     },
